@@ -31,6 +31,10 @@ type Parser struct {
 	Errors              []error
 	DefineInfos         []string
 	BeforeString        string
+
+	// set on the copy a condition is read ahead with: what that copy evaluates
+	// is evaluated again for real and must not be recorded twice
+	IsLookahead bool
 }
 
 func New(lexer lexer.Lexer, file string) Parser {
